@@ -15,7 +15,7 @@ SPEC = {
     "build_comp": "remotelist",
     "props": ["props/C37.v"],
     "corr": ["corr/RemoteList_corr.v"],
-    "comps": [{"comp": "remotelist", "n_quick": 240, "n_thorough": 4000}],
+    "comps": [{"comp": "remotelist", "n_quick": 200, "n_thorough": 4000}],
     "trusted": ["model/RemoteList.v is a hand-written mirror of remote_list.go (tied by correspondence on operation histories through the real RemoteList)",
                 "netip.Prefix.Contains, Addr.Compare, Addr.IsPrivate, Addr.Unmap are modelled (pfx_contains, addr_compare, is_private4, unmap_addr) and exercised through the correspondence",
                 "gen/Consts_RemoteList.v: MaxRemotes evaluated by the Go compiler from the working tree"],
